@@ -61,6 +61,7 @@ def _scope(rng, depth_ok=True):
 def generate(rng, ctx):
     layout = {
         "root": _scope(rng), "sub": _scope(rng), "sub.deep": _scope(rng), "t": _scope(rng),
+        "sub.t": _scope(rng), "sub.deep.t": _scope(rng), "plain.t": _scope(rng),
         "items": [_scope(rng) for _ in range(rng.choice([0, 1, 2, 3]))],
         "titems": [_scope(rng) for _ in range(rng.choice([0, 1, 2]))],
     }
@@ -112,6 +113,12 @@ def run(case, ctx, res):
     ts = cc.Schema()
     _fill_schema(cc, ts, lay["t"], method)
     root.t = cc.make_type(ts, "T", module="vf_types")
+    # config types inside nested sub-configurations (one of them below a schema with nothing else sensitive)
+    for n, (holder, key) in enumerate(((root.sub, "sub.t"), (root.sub.deep, "sub.deep.t"), (root.plain, "plain.t"))):
+        sub_ts = cc.Schema()
+        _fill_schema(cc, sub_ts, lay.get(key, {}), method)
+        holder.t = cc.make_type(sub_ts, "T%d" % n, module="vf_types")
+    root.plain.note = cc.StringField(default="nothing sensitive here")
     item = cc.Schema()
     _fill_schema(cc, item, None, method, {k + "1": (k, lay["items_sens"][k], None) for k in KINDS})
     root.items = cc.ListField(item)
@@ -129,6 +136,9 @@ def run(case, ctx, res):
     assign(cfg.sub, lay["sub"])
     assign(cfg.sub.deep, lay["sub.deep"])
     assign(cfg.t, lay["t"])
+    assign(cfg.sub.t, lay.get("sub.t", {}))
+    assign(cfg.sub.deep.t, lay.get("sub.deep.t", {}))
+    assign(cfg.plain.t, lay.get("plain.t", {}))
     for lst, scopes in (("items", lay["items"]), ("titems", lay["titems"])):
         setattr(cfg, lst, [])
         for sc in scopes:
@@ -136,7 +146,9 @@ def run(case, ctx, res):
             assign(getattr(cfg, lst)[-1], sc)
     # positions: (path list, kind, sensitive, value)
     positions = []
-    for prefix, scope in (([], lay["root"]), (["sub"], lay["sub"]), (["sub", "deep"], lay["sub.deep"]), (["t"], lay["t"])):
+    for prefix, scope in (([], lay["root"]), (["sub"], lay["sub"]), (["sub", "deep"], lay["sub.deep"]), (["t"], lay["t"]),
+                          (["sub", "t"], lay.get("sub.t", {})), (["sub", "deep", "t"], lay.get("sub.deep.t", {})),
+                          (["plain", "t"], lay.get("plain.t", {}))):
         for key, (kind, sens, v) in scope.items():
             positions.append((prefix + [key], kind, sens, v))
     for lst in ("items", "titems"):
@@ -211,7 +223,7 @@ def _p(path):
 def _where(path):
     if path[0] in ("items", "titems"):
         return "list-item"
-    if path[0] == "t":
+    if "t" in path[:-1]:
         return "ctype"
     return "depth%d" % len(path)
 
